@@ -11,25 +11,25 @@ func init() {
 		NotDecided: "correctness of the hash implementations; that Verify's re-scan after an algorithm switch reads exactly the bytes written; pre-existing corrupt files in a directory.",
 	})
 	registerProperty(&Property{ID: "C02", DesignRef: "DESIGN.md §4 C02, §3.3",
-		Rules:      []string{"TS-BOUNDREAD", "TS-ACK", "TS-SERVE", "TS-CONTENT-FIRST#push", "TS-STORED-THEN-INDEXED#push", "TS-REFUSE#push", "TS-REFUSE#upload", "SH-WORKLIST#complete", "SH-CONVERT-MARK#loader", "SH-WORKLIST#skip-set", "SH-SWEEP-GUARD#safety", "SH-ROOTS#safety", "TS-TAGKEEP", "TB-MEDIATYPE"},
+		Rules:      []string{"TS-BOUNDREAD", "TS-ACK", "TS-SERVE", "TS-CONTENT-FIRST#push", "TS-STORED-THEN-INDEXED#push", "TS-REFUSE#push", "TS-REFUSE#upload", "SH-WORKLIST#complete", "SH-CONVERT-MARK#loader", "SH-WORKLIST#skip-set", "SH-SWEEP-GUARD#safety", "SH-ROOTS#safety", "TS-TAGKEEP", "TB-MEDIATYPE", "FS-CLEANUP"},
 		Technique:  techPath,
 		Decided:    "the manifest body is read through a bound above the limit and an oversized body is refused on every path to the insert (never stored cut); no 2xx / `return nil` is reachable when a commit call failed, was not tested or was discarded (abstract error values tracked per path); content is stored before the index entry naming it; served headers and body come from the recorded descriptor; the child descriptors of nested indexes are rebuilt completely on every index load (worklist discipline of the scan), so manifests acknowledged by digest stay addressable after a restart; the collector removes nothing a retained manifest references (skip-set discipline, sweep guards and root selection shared with C05), so acknowledged content disappears only by policy.",
 		NotDecided: "byte identity after arbitrary histories; range arithmetic (net/http.ServeContent); the full retention policy matrix (C05).",
 	})
 	registerProperty(&Property{ID: "C03", DesignRef: "DESIGN.md §4 C03, §3.4",
-		Rules:      []string{"PV-BOUNDS#taglist", "TS-SORT", "TS-REFTAG", "TS-GETDESC", "TS-TAGKEEP", "TS-SAVE#api", "TB-GRAMMAR#tag", "TS-RMDESC", "SH-ROOTS#safety"},
+		Rules:      []string{"PV-BOUNDS#taglist", "TS-SORT", "TS-REFTAG", "TS-GETDESC", "TS-TAGKEEP", "TS-SAVE#api", "TB-GRAMMAR#tag", "TS-RMDESC", "SH-ROOTS#safety", "TS-REFRESP-FLOW"},
 		Technique:  "difference-bound (ABCD-style) range proof on go/ssa for request-derived integers; ordering checks on the CFG",
 		Decided:    "every slice bound / index derived from the request's n, page … is proven in range by the dominating conditions (n=0, negative and oversized values cannot panic); the tag list is filled, sorted, truncated, marshalled in that order; a tag is recorded only from a grammar-checked reference; tag lookups return the annotated entry and digest lookups a bare descriptor (what makes ‘delete a tag’ and ‘delete a digest’ differ); a tagged entry of the index is a root of the collector whatever other entries of the same digest say (a tag that was never deleted is not dropped by a collection).",
 		NotDecided: "the map semantics of AddDesc/RmDesc (value-level, see C18); strictness of the `last` comparison; exactly-once paging.",
 	})
 	registerProperty(&Property{ID: "C04", DesignRef: "DESIGN.md §4 C04, §3.3, §3.6",
-		Rules:      []string{"TS-EXISTS", "TS-MT-CONSISTENT", "TS-REFTAG", "TS-HASHBYTES#expected-digest", "TS-REFUSE#push", "TB-MEDIATYPE", "TS-DETECT", "PV-PATH#digest", "TB-GRAMMAR#tag", "TS-TOMBSTONE"},
+		Rules:      []string{"TS-EXISTS", "TS-MT-CONSISTENT", "TS-REFTAG", "TS-HASHBYTES#expected-digest", "TS-REFUSE#push", "TB-MEDIATYPE", "TS-DETECT", "PV-PATH#digest", "TB-GRAMMAR#tag", "TS-TOMBSTONE", "TB-RESERVED"},
 		Technique:  techPath + "; table agreement on constants",
 		Decided:    "every path to the index insert passes the parse ok-edge and the ok-edge of an existence verifier that covers every Descriptor field of the parsed struct in the same repository; the declared media type is compared with the body's; reference is a grammar-checked tag or the compared digest; media-type tables agree; nothing mutating is reachable after any refusal; mutators sit behind the read-only guard.",
 		NotDecided: "well-formedness beyond what the JSON decoder and the reference checks establish; equality of the observable state before/after a refusal as a value.",
 	})
 	registerProperty(&Property{ID: "C05", DesignRef: "DESIGN.md §4 C05, §3.7, §3.2",
-		Rules:      []string{"SH-WORKLIST#skip-set", "SH-MARK-EXHAUSTIVE", "SH-SWEEP-GUARD#safety", "SH-ROOTS#safety", "TS-COMMIT-FRESH", "FS-CLEANUP", "LK-TOKEN#exclusion", "SH-SIBLING-REF#mediatype", "TB-MEDIATYPE", "LK-RMW"},
+		Rules:      []string{"SH-WORKLIST#skip-set", "SH-MARK-EXHAUSTIVE", "SH-SWEEP-GUARD#safety", "SH-ROOTS#safety", "TS-COMMIT-FRESH", "FS-CLEANUP", "LK-TOKEN#exclusion", "SH-SIBLING-REF#mediatype", "TB-MEDIATYPE", "LK-RMW", "TS-REFRESP-FLOW"},
 		Technique:  "algorithm-shape rules on the typed AST and go/ssa (worklist discipline, field exhaustiveness, dominance of the sweep), lock/typestate analysis for the collector–handler exclusion",
 		Decided:    "mark phase: skip-set discipline (a digest in several roles is still expanded), every descriptor field of image and index manifests and the referrers edge are followed; sweep: removal dominated by the not-marked edge, a modification-time test can skip it, an unmarked blob is kept only on the ‘not an index entry’ edge (retention closed under reference); root selection: every iteration path consistent with tagged / untagged-collection-off / recent appends the entry to the mark worklist (path conditions over the policy atoms); exclusion protocol: token before wait before mutex in the collector, holds only added with the token or before publication (the pairing of RepoGet/Done in handlers is decided under C12); the referrers response of a subject is read, extended and re-inserted under one mutex (a referrer lost to a concurrent update is listed nowhere and would be collected although its subject is retained).",
 		NotDecided: "the referrers part of the retention policy matrix; which blobs a given graph retains.",
@@ -41,19 +41,19 @@ func init() {
 		NotDecided: "exactness of the sweep as a value; idempotence of a second pass; empty-repository removal semantics (its safety is under C10).",
 	})
 	registerProperty(&Property{ID: "C07", DesignRef: "DESIGN.md §4 C07, §3.3",
-		Rules:      []string{"TS-REFERRER-CALL", "TS-REFDEL", "SH-SIBLING-REF", "TS-PAGE", "TS-FILTER-HDR", "PV-CACHEKEY", "TS-REFDESC", "LK-RMW", "TS-HASHBYTES#referrer", "TS-CONTENT-FIRST#referrer", "TS-STORED-THEN-INDEXED#referrer", "SH-SWAP-REMOVE"},
+		Rules:      []string{"TS-REFERRER-CALL", "TS-REFDEL", "SH-SIBLING-REF", "TS-PAGE", "TS-FILTER-HDR", "PV-CACHEKEY", "TS-REFDESC", "LK-RMW", "TS-HASHBYTES#referrer", "TS-CONTENT-FIRST#referrer", "TS-STORED-THEN-INDEXED#referrer", "SH-SWAP-REMOVE", "TS-REFRESP-FLOW", "SH-GROUP-KEY"},
 		Technique:  techPath + "; sibling agreement; lock analysis for the read-modify-write",
 		Decided:    "the referrers update is called on every push path with a subject, for both manifest kinds, before the 201, and before the index removal on delete — only when the manifest itself is removed; all builders of a referrers entry fill the same fields (config fallback for images); pages respect the limit; filtered answers announce the filter on every path; the response's read-modify-write runs under one mutex.",
 		NotDecided: "exactness of the list contents after arbitrary histories; filter semantics; union of pages.",
 	})
 	registerProperty(&Property{ID: "C08", DesignRef: "DESIGN.md §4 C08, §3.3, §3.2",
-		Rules:      []string{"TS-RANGE", "LK-CTA", "TS-CANCEL", "TS-REFUSE#upload", "PV-PATH#session", "FS-TEMP", "TS-CLEANUP", "TS-TIMER", "LK-GUARD-UPLOAD", "SH-RANGE-HDR", "TS-LOWWATER", "TS-PRUNE-TOTAL", "LK-CTA-UPLOAD"},
+		Rules:      []string{"TS-RANGE", "LK-CTA", "TS-CANCEL", "TS-REFUSE#upload", "PV-PATH#session", "FS-TEMP", "TS-CLEANUP", "TS-TIMER", "LK-GUARD-UPLOAD", "SH-RANGE-HDR", "TS-LOWWATER", "TS-PRUNE-TOTAL", "LK-CTA-UPLOAD", "TS-OPT-GUARD"},
 		Technique:  techPath + "; lock analysis for check-then-act",
 		Decided:    "every write into an existing session is dominated by the Content-Range check and the state-offset equality against Size(); check and write under one lock (fails today: known finding); a failed Verify cancels; every exit of both commit methods unregisters the session; a refused chunk reaches no write; session ids never reach a path; the session cleanup removes the temp file; cache entries are only dropped after their cleanup; the expiry timer of the session cache is re-armable after it was stopped (a stopped timer is never left in the nil-tested field).",
 		NotDecided: "the count bound (asynchronous pruning, value-level); that status reports exactly the received bytes; expiry timing.",
 	})
 	registerProperty(&Property{ID: "C09", DesignRef: "DESIGN.md §4 C09, §3.5",
-		Rules:      []string{"FS-INDEX", "FS-BLOB", "TS-CONTENT-FIRST", "SH-DIGESTER", "FS-INIT", "TS-SAVE#api"},
+		Rules:      []string{"FS-INDEX", "FS-BLOB", "TS-CONTENT-FIRST", "SH-DIGESTER", "FS-INIT", "TS-SAVE#api", "TS-SAVE#ingest"},
 		Technique:  "filesystem-effect analysis on go/ssa (who-may-write, ordering of effects on all paths)",
 		Decided:    "the ordering/atomicity skeleton that a crash can expose: index.json only ever replaced by rename of a fully encoded same-directory temp file; blobs only appear by rename of the session's closed temp file after the digest comparison; content stored before the index entry that names it (handlers and ingest); layout file before index before exists flag. With POSIX rename atomicity (trusted) a blob file is absent or complete and index.json is the old or the new version.",
 		NotDecided: "multi-step requests being all-or-nothing; GC deleting blobs before saving the index; stray temp files; power-failure durability (outside the property).",
@@ -104,13 +104,13 @@ func init() {
 		NotDecided: "symlinks inside the root; case-insensitive filesystems; per-repository isolation of in-memory maps as a value property.",
 	})
 	registerProperty(&Property{ID: "C17", DesignRef: "DESIGN.md §4 C17, §3.7",
-		Rules:      []string{"LK-SELF#ingest", "SH-IDEMPOTENT", "SH-WORKLIST#term", "SH-WORKLIST#complete", "SH-CONVERT-MARK", "TS-CONTENT-FIRST#ingest", "TS-STORED-THEN-INDEXED#ingest", "TS-SAVE#ingest", "SH-GROUP-KEY", "TS-REFDESC", "SH-SWAP-REMOVE"},
+		Rules:      []string{"LK-SELF#ingest", "SH-IDEMPOTENT", "SH-WORKLIST#term", "SH-WORKLIST#complete", "SH-CONVERT-MARK", "TS-CONTENT-FIRST#ingest", "TS-STORED-THEN-INDEXED#ingest", "TS-SAVE#ingest", "SH-GROUP-KEY", "TS-REFDESC", "SH-SWAP-REMOVE", "TB-GRAMMAR#anchor"},
 		Technique:  "lock analysis on the conversion's call chain; shape and path rules on go/ssa and the typed AST",
 		Decided:    "the conversion cannot block on a mutex it already holds; re-creating an already stored response is tolerated (repeatability after interruption); the conversion and child-scan loops terminate; the converted marker is set on every normal exit and the modified result leads to a save; a regenerated response is stored before it is indexed.",
 		NotDecided: "losslessness; grouping by actual subject; equality of the results of repeated conversions (value-level).",
 	})
 	registerProperty(&Property{ID: "C19", DesignRef: "DESIGN.md §4 C19, §3.6",
-		Rules:      []string{"TB-FLAGS", "TB-DEFAULTS", "TB-NILCONF", "TB-ROUTE", "LK-SHUTDOWN", "LK-GUARD-SERVER", "TS-SHUTDOWN", "TS-CONF-LIST", "FS-RO", "TS-REFERRER-CALL#setting"},
+		Rules:      []string{"TB-FLAGS", "TB-DEFAULTS", "TB-NILCONF", "TB-ROUTE", "LK-SHUTDOWN", "LK-GUARD-SERVER", "TS-SHUTDOWN", "TS-CONF-LIST", "FS-RO", "TS-REFERRER-CALL#setting", "SH-CONVERT-MARK#setting"},
 		Technique:  "table agreement on the typed AST (flags, option fields, configuration paths, defaults); guard dominance in the router; lock analysis of the shutdown path",
 		Decided:    "flag → option → configuration path wiring equals the documented table, flag defaults equal SetDefaults defaults, defaulting never overwrites a set value; every mutating route is gated by its switch; the rate-limit entry is updated under one mutex; the shutdown path is free of lock cycles and closes the store on every path on which the HTTP shutdown succeeded.",
 		NotDecided: "per-second accounting; signal handling outcome; every-combination behaviour as values.",
